@@ -28,7 +28,9 @@ def pairs(rng, tier):
     for a in small:
         for b in small:
             out.append((a, b))
-    lens = [1, 2, 3, 4, 7] + ([16, 40, 90] if thorough else [12])
+    # 36/40/90 digits: the digit-level model's `self / gcd * other` and the Euclid loop's `q * r` reach the
+    # Karatsuba regime of mulRef and multi-digit Knuth division
+    lens = [1, 2, 3, 4, 7] + ([16, 40, 90] if thorough else [12, 36])
     reps = 6 if thorough else 2
     for _ in range(reps):
         for la in lens:
@@ -58,6 +60,22 @@ def pairs(rng, tier):
                 long_ = (s_ * mult) << shift if rng.randrange(2) else s_ << (64 * gap + rng.randrange(0, 9))
                 out.append((long_, s_)); out.append((s_, long_))
                 out.append((long_ + s_ // 2 if s_ > 1 else long_ + 1, s_))     # same shape, not divisible
+    # digit-level operator paths of the gcd family: `%` with a divisor below / at / above 2^32 (`to_u32` fast
+    # path of `&a % &b` vs `div_rem_ref`), single-digit divisors 1 and MAX, dividend shorter than divisor
+    # (`&b - m`, `&a + d` with the longer operand on either side), carries out of `+= 1` / borrows of `-= 1`
+    for d in [1, 2, (1 << 32) - 1, 1 << 32, (1 << 32) + 1, MAX, 1 << 64, (1 << 64) + 1]:
+        for la in [1, 2, 3, 5]:
+            a = big(rng, la)
+            out.append((a, d)); out.append((d, a)); out.append((a * d, d)); out.append((a * d + d - 1, d))
+            out.append((val([MAX] * la), d)); out.append((val([MAX] * la) + 1, d))
+    # primitive-type boundaries (any native i64/i128/u64/u128 fast path must agree with the big path; the gcd of
+    # -2^127 with 0 or itself is +2^127, which no i128 holds): all sign combinations come from gen()
+    edges = []
+    for k in (31, 32, 63, 64, 127, 128):
+        edges += [(1 << k) - 1, 1 << k, (1 << k) + 1]
+    for a in edges:
+        for b in (0, 1, 2, 3, a, a - 1, a + 1, 1 << 63, 1 << 127, (1 << 127) - 1, 6, 1 << 20):
+            out.append((a, b)); out.append((b, a))
     # common powers of two spanning digits with different trailing-zero counts
     tzs = [0, 1, 2, 63, 64, 65, 127, 128, 130, 200] + ([700, 1999] if thorough else [])
     for i in tzs:
